@@ -133,6 +133,10 @@ func orderExtra() []extraJob {
 			out = append(out, extraJob{src: src, in: oq, env: []fhirpath.EvaluateOption{evalopts.EnvVariable("v", holders[n])}, label: "%v=" + n})
 		}
 	}
+	for _, src := range []string{"1.0 / 3.0", "1.0 / 3.00000000000000000000", "2.0 / 7.0", "10 / 3", "1 / 3.0000000000000000000000001", "(1.0 / 3.0).toString()", "7.0 div 0.3", "7.0 mod 0.3", "1.0 / 3.0 = 0.3333333333333333",
+		"(2.0 / 3).round(4)", "100 / 7.000000000000000000", "1 / 7"} {
+		out = append(out, extraJob{src: src, in: oq, label: "arithmetic"})
+	}
 	for li, in := range [][]fhir.Resource{oq, os_, ob} {
 		for _, src := range []string{"Observation.value is Quantity", "Observation.value is string", "Observation.value is boolean", "Observation.value as Quantity", "Observation.value.ofType(string)", "Observation.value", "Observation.value.toString()",
 			"Observation.children().select($this is Quantity)", "Observation.descendants().ofType(Quantity).count()"} {
@@ -347,7 +351,30 @@ func runC04(c *Ctx) {
 			jobs = append(jobs, job{e, src, ri})
 		}
 	}
-	shared := system.Collection{system.Integer(1), fhir.String("s")}
+	// a resource with many equal and distinct strings (order-sensitive functions over 40 items), and programs that
+	// project, subset and combine the shared variable
+	{
+		var given []string
+		for i := 0; i < 40; i++ {
+			given = append(given, fmt.Sprintf("\"g%02d\"", (i*7)%33))
+		}
+		many := mustResource(`{"resourceType":"Patient","id":"many","name":[{"given":[` + strings.Join(given, ",") + `]},{"given":["x","y"]},{"given":["z"]}]}`)
+		resources = append(resources, many)
+		ri := len(resources) - 1
+		for _, src := range []string{"Patient.name.given.distinct()", "Patient.name.given.distinct().first()", "Patient.name.given.distinct().last()", "Patient.name.given.distinct().take(5)", "Patient.name.given.distinct().count()",
+			"Patient.name.given.distinct().skip(10).first()", "Patient.name.select(%v.take(1))", "Patient.name.select(%v.take(2))", "Patient.name.given.select(%v.skip(1).take(1))", "Patient.name.select(%v.take(1)).count()",
+			"%v.select(%v.take(1))", "%v", "%v.last()", "%v.count()", "%v.tail()", "%v.take(1) & 'x'", "%v.skip(2).take(1) & %v.last()", "Patient.name.given.intersect(%v)", "%v.intersect(Patient.name.given)", "%v.exclude(%v.take(1))",
+			"%v.where($this != %v.first())", "%v.distinct()", "%v.isDistinct()", "Patient.name.given.exclude(%v)", "1.0 / 3.0", "1.0 / 3.00000000000000000000", "2.0 / 7.0", "10 / 3", "(1.0 / 3.0).toString()", "1.0 / 3.0 = 2.0 / 6.0",
+			"1.00000000000000000001 * 3", "7.0 div 0.30000000000000000001", "1 / 3.0000000000000000000000001", "(10.0 / 3).round(3)"} {
+			e, err := fhirpath.Compile(src)
+			if err != nil {
+				continue
+			}
+			jobs = append(jobs, job{e, src, ri})
+		}
+	}
+	shared := system.Collection{system.Integer(1), fhir.String("s"), system.String("t"), fhir.Code("u"), system.Integer(1)}
+	sharedBefore := snapshotSlice(shared)
 	evalJob := func(j job) string {
 		o := safeEval(func() (system.Collection, error) {
 			return j.e.Evaluate([]fhir.Resource{resources[j.ri]}, evalopts.EnvVariable("v", shared), evalopts.OverrideTime(fixedNow))
@@ -358,6 +385,12 @@ func runC04(c *Ctx) {
 	for i, j := range jobs {
 		want[i] = evalJob(j)
 	}
+	// evaluated again, after all the others, in the reverse order: the same results
+	for i := len(jobs) - 1; i >= 0; i-- {
+		again := evalJob(jobs[i])
+		c.Law(again == want[i], "C04/repeat-differs", "repeating an evaluation on the same inputs gives the same result, whatever was evaluated in between", jobs[i].src, again+" vs "+want[i])
+	}
+	c.Law(sameSnapshot(sharedBefore, shared), "C04/shared-variable-modified", "an environment collection shared by evaluations is left as supplied", "%v after the sequential pass", fmt.Sprint(shared))
 	for _, procs := range []int{1, 2, 4, 16} {
 		old := runtime.GOMAXPROCS(procs)
 		G := 8
